@@ -280,7 +280,7 @@ def explore10(cfg: dict) -> dict:
 
 def configs(tier: str):
     out = []
-    ns = (1, 2, 3) if tier == 'quick' else (1, 2, 3, 4, 5)
+    ns = (1, 2, 3, 4) if tier == 'quick' else (1, 2, 3, 4, 5, 6, 7)
     for span in ('list_sym', 'nd_obj_sym', 'range', 'nd_int'):
         for n in ns:
             distinct = span == 'nd_obj_sym'
@@ -289,7 +289,7 @@ def configs(tier: str):
             for op in ('getslice', 'setslice'):
                 for a, b in (('sym', 'sym'), ('none', 'sym'), ('sym', 'none'), ('none', 'none')):
                     for step in ('none', 'sym'):
-                        if n > 3 and step == 'sym' and op == 'setslice' and span != 'list_sym':
+                        if n > 5 and step == 'sym' and op == 'setslice' and span != 'list_sym':
                             continue
                         out.append(cfg10(span=span, n=n, op=op, a=a, b=b, step=step, distinct=distinct))
             for w in ('attr', 'key', 'label', 'slice', 'whole'):
@@ -298,7 +298,7 @@ def configs(tier: str):
     # plain-int labels on range / int64-ndarray spans (a proxy label would bypass any `isinstance(label, int)` fast path):
     # every label from below the first to above the last
     for span in ('range', 'nd_int'):
-        for n in (1, 3) if tier == 'quick' else (1, 2, 3, 5):
+        for n in (1, 3) if tier == 'quick' else (1, 2, 3, 5, 7):
             labs = list(range(1990 - n - 2, 1990 + n + 3))
             for a in labs:
                 out.append(cfg10(span=span, n=n, op='get', a=a))
@@ -308,7 +308,7 @@ def configs(tier: str):
                     out.append(cfg10(span=span, n=n, op='getslice', a=a, b=b, step='sym' if n > 1 else 'none'))
                     out.append(cfg10(span=span, n=n, op='setslice', a=a, b=b))
     for span in ('list_str', 'nd_str', 'list_mixed'):
-        for n in (1, 3) if tier == 'quick' else (1, 2, 3, 4):
+        for n in (1, 3) if tier == 'quick' else (1, 2, 3, 4, 5):
             labs = _labels(cfg10(span=span, n=n), SymSrc())
             extra = 'zz' if span != 'list_mixed' else 'nope'
             for a in list(labs) + [extra]:
@@ -345,7 +345,7 @@ def main() -> int:
         rep, configs(tier), TWINS,
         functions=['fsic.core.containers.VectorContainer.__getitem__', '__setitem__', '_resolve_period_slice',
                    '_locate_period_in_span', '_locate_period_in_span_fallback'],
-        bounds={'span_length': '1..3 (thorough 5)', 'span_types': ['list of symbolic integer labels', 'object ndarray of symbolic labels (fallback locator)',
+        bounds={'span_length': '1..4 (thorough 7)', 'span_types': ['list of symbolic integer labels', 'object ndarray of symbolic labels (fallback locator)',
                                                                    'range with non-zero origin', 'int64 ndarray', 'list of str', 'str ndarray', 'list of mixed hashables'],
                 'labels': 'requested labels are unconstrained integers (present anywhere, repeated, absent)', 'step': 'symbolic 1..n+1',
                 'value': 'any Float64'},
